@@ -100,3 +100,73 @@ Example C07_concrete :
   option_map (fun t => tree_counts t [1 # 4; 1 # 2; 1 # 2; 1]) (trees_used s) = Some (true, [2; 1]%nat) /\
   tree_counts (Some (e, true)) [1 # 4; 1 # 2; 1 # 2; 1] = (true, [1; 2]%nat).
 Proof. vm_compute. repeat split; reflexivity. Qed.
+
+(* ---------- catalogs: one state per patch; single-patch builds (BinnedTrees.build on one
+   patch) may leave the patches of a catalog with trees for different binnings ---------- *)
+
+(* every patch of a catalog sees its own projection of a catalog-level history *)
+Theorem C07_crun_nth : forall h cs p,
+  nth_error (crun h cs) p = option_map (run (map (proj p) h)) (nth_error cs p).
+Proof. exact crun_nth. Qed.
+Print Assumptions C07_crun_nth.
+
+Theorem C07_crun_length : forall h cs, length (crun h cs) = length cs.
+Proof. exact crun_length. Qed.
+Print Assumptions C07_crun_length.
+
+Theorem C07_crun_preserves_inv : forall h cs, Forall Inv cs -> Forall Inv (crun h cs).
+Proof. exact crun_preserves_inv. Qed.
+Print Assumptions C07_crun_preserves_inv.
+
+(* after ANY catalog-level history (catalog-wide operations and builds of single patches, any
+   patch) the catalog-wide unforced build of a measurement leaves in EVERY patch the trees of the
+   requested binning *)
+Theorem C07_catalog_history_independent : forall h b cs,
+  valid_ob b = true -> Forall Inv cs ->
+  Forall (fun s => trees_used s = built_for b) (crun (h ++ [All (Build b false)]) cs).
+Proof. exact catalog_history_independent. Qed.
+Print Assumptions C07_catalog_history_independent.
+
+Theorem C07_catalog_measurement_history_independent : forall h c r cs,
+  valid_edges (c_edges c) = true -> Forall Inv cs ->
+  Forall (fun s => trees_used s = built_for (role_binning c r)) (crun (h ++ [All (Measure c r)]) cs).
+Proof. exact catalog_measurement_history_independent. Qed.
+Print Assumptions C07_catalog_measurement_history_independent.
+
+(* = patch by patch the trees of a freshly created catalog cache *)
+Theorem C07_catalog_history_independent_fresh : forall h b cs,
+  valid_ob b = true -> Forall Inv cs ->
+  map trees_used (crun (h ++ [All (Build b false)]) cs) =
+  map trees_used (crun [All (Build b false)] (c_fresh (length cs))).
+Proof. exact catalog_history_independent_fresh. Qed.
+Print Assumptions C07_catalog_history_independent_fresh.
+
+Theorem C07_catalog_history_independent_any_sound_decision : forall eq,
+  (forall stored req, eq stored req = true -> built_for stored = built_for req) ->
+  forall h b cs, valid_ob b = true -> Forall Inv cs ->
+  Forall (fun s => trees_used s = built_for b) (crun_with eq (h ++ [All (Build b false)]) cs).
+Proof. exact catalog_history_independent_with. Qed.
+Print Assumptions C07_catalog_history_independent_any_sound_decision.
+
+(* not vacuous: a catalog-wide build that returns early when the FIRST patch already matches
+   leaves another patch with stale trees after a single-patch build *)
+Theorem C07_first_patch_shortcut_unsound :
+  exists h b cs, valid_ob b = true /\ Forall Inv cs /\
+    exists s, In s (fold_left cstep_first_patch_shortcut (h ++ [All (Build b false)]) cs) /\
+      trees_used s <> built_for b /\
+      exists zs, option_map (fun t => tree_counts t zs) (trees_used s) <> Some (tree_counts b zs).
+Proof. exact first_patch_shortcut_unsound. Qed.
+Print Assumptions C07_first_patch_shortcut_unsound.
+
+(* non-vacuity at catalog level: 3 patches hold (1/4,1/2,1]; patch 0 and then patch 2 alone are
+   rebuilt for other binnings (same bin count); the measurement for [1/4,5/8,1) leaves its trees
+   in all three patches *)
+Example C07_catalog_concrete :
+  let a := Some ([1 # 4; 1 # 2; 1], false) in
+  let b := Some ([1 # 4; 5 # 8; 1], true) in
+  let c := {| c_edges := [1 # 4; 5 # 8; 1]; c_closed := true; c_scales := [(1 # 10, 3)] |} in
+  let h := [All (Build a false); One 0 b false; One 2 None true; One 7 b false] in
+  map trees_used (crun h (c_fresh 3)) = [built_for b; built_for a; built_for None] /\
+  map trees_used (crun (h ++ [All (Measure c Reference)]) (c_fresh 3)) = repeat (built_for b) 3 /\
+  map bfile (crun (h ++ [All (Measure c Reference)]) (c_fresh 3)) = repeat (Some b) 3.
+Proof. vm_compute. repeat split; reflexivity. Qed.
